@@ -100,7 +100,9 @@ impl Profile {
                 p.w_fault = 20;
                 p.w_byz = 3;
                 p.w_enum = 1;
-                p.max_enum = if thorough { 3 } else { 1 };
+                // complete neighbourhoods are expensive (about 2 400 deliveries to every decoder each):
+                // roughly 600 per quick batch, a few thousand per thorough batch
+                p.max_enum = if thorough { u32::from(rng.chance(1, 4)) } else { 1 };
                 p.w_diskfault = 3;
                 p.w_crash = 2;
                 p.w_persist = 4;
